@@ -231,3 +231,16 @@ func sizeOf(v any) int {
 		return 1
 	}
 }
+
+// Somebody else in the process merges with other options (the pipeline's mergeFiles template function does:
+// AsOne().Merged(ListsMergeAppend())): options belong to the call they are given to, the next merge without options is a
+// default merge.  Called before default-strategy merges of C04, C06 and C13.
+func mergeElsewhereWithOptions() {
+	_ = guard(func() {
+		ov := dom.NewOverlayDocument()
+		ov.Add("l1", anyToContainer(map[string]any{"l": []any{1, 2, 3}}))
+		ov.Add("l2", anyToContainer(map[string]any{"l": []any{9}}))
+		_ = ov.Merged(dom.ListsMergeAppend())
+		_ = anyToContainer(map[string]any{"l": []any{1}}).Merge(anyToContainer(map[string]any{"l": []any{2}}), dom.ListsMergeAppend())
+	})
+}
